@@ -2,6 +2,7 @@ pub mod common;
 
 pub mod c05;
 pub mod c07;
+pub mod c08;
 pub mod c09;
 
 use crate::obs::Ctx;
@@ -10,6 +11,7 @@ pub fn run(check: &str, ctx: &mut Ctx) -> bool {
     match check {
         "c05" => c05::run(ctx),
         "c07" => c07::run(ctx),
+        "c08" => c08::run(ctx),
         "c09" => c09::run(ctx),
         _ => return false,
     }
